@@ -202,6 +202,51 @@ theorem C13_stanza_error_roundtrip (parse : String → Option String) (e : SErr)
   by_cases ht : e.typ = "" <;> by_cases hb : e.by_ = "" <;>
     simp [errAttrs, ht, hb, lastAttr, attr0, hby]
 
+/-- names of decoded payload children are the payload's element names: none is in `ns` -/
+theorem children_foreign {cs : List Child} {es : List Elem} (hn : cs.map (·.name) = es.map (·.name))
+    (ns : String) (hns : ∀ x ∈ es, x.name.space ≠ ns) : ∀ c ∈ cs, c.name.space ≠ ns := by
+  intro c hc
+  have : c.name ∈ es.map (·.name) := by rw [← hn]; exact List.mem_map.mpr ⟨c, hc, rfl⟩
+  obtain ⟨x, hx, hxe⟩ := List.mem_map.mp this
+  rw [← hxe]; exact hns x hx
+
+/-- **round trip with an application payload**: any sequence of complete elements outside the
+stanza-error namespace (what `Wrap(payload)` is given) leaves the decoded error unchanged -/
+theorem C13_stanza_error_roundtrip_payload (parse : String → Option String) (e : SErr) (es : List Elem)
+    (hes : ∀ x ∈ es, x.ok) (hns : ∀ x ∈ es, x.name.space ≠ nsErr)
+    (hby : e.by_ ≠ "" → parse e.by_ = some e.by_) (hc : condOf e ≠ "text") :
+    decodeErr parse (errTokens e (es.flatMap Elem.toks)) =
+      some ⟨e.by_, e.typ, condOf e, (sortTexts e.texts).filter (·.2 ≠ "")⟩ := by
+  obtain ⟨cs, hn, hf⟩ := fold_elems es hes
+    ([⟨⟨nsErr, condOf e⟩, [], ""⟩] ++ ((sortTexts e.texts).filter (·.2 ≠ "")).map (textChild nsErr))
+  have hforeign := children_foreign hn nsErr hns
+  have hchildren : childrenOf (errContent e (es.flatMap Elem.toks)) =
+      ⟨⟨nsErr, condOf e⟩, [], ""⟩ :: (((sortTexts e.texts).filter (·.2 ≠ "")).map (textChild nsErr) ++ cs) := by
+    unfold childrenOf errContent
+    rw [List.foldl_append, List.foldl_append, fold_empty, fold_texts]
+    simp only [List.nil_append]
+    rw [hf]
+    simp
+  have hne : (⟨nsErr, condOf e⟩ : Name) ≠ textName := by
+    intro h; injection h with _ h2; exact hc h2
+  have hne1 : decide ((⟨nsErr, condOf e⟩ : Name) ≠ textName) = true := by simpa using hne
+  have hne2 : decide ((⟨nsErr, condOf e⟩ : Name) = textName) = false := by simpa using hne
+  have hcs : cs.filter (fun c => decide (c.name = textName)) = [] := by
+    apply List.filter_eq_nil_iff.mpr
+    intro c hc'
+    have := hforeign c hc'
+    simp only [decide_eq_true_eq]
+    intro h; rw [h] at this; exact this rfl
+  unfold decodeErr errTokens
+  rw [contentOf_wrap]
+  simp only [hchildren, List.filter_cons, List.filter_append, hne1, hne2, if_true, Bool.false_eq_true, if_false,
+    filter_eq_text, hcs, List.append_nil, map_lang_text, List.find?_cons]
+  have hfil : ∀ l : List (String × String), (l.filter (·.2 ≠ "")).filter (·.2 ≠ "") = l.filter (·.2 ≠ "") := by
+    intro l; simp [List.filter_filter]
+  rw [hfil]
+  by_cases ht : e.typ = "" <;> by_cases hb : e.by_ = "" <;>
+    simp [errAttrs, ht, hb, lastAttr, attr0, hby]
+
 /-! ### Stream errors -/
 
 /-- balanced for all field contents and any balanced application payload -/
@@ -249,5 +294,61 @@ theorem C13_stream_error_roundtrip (e : StErr) (hc : e.err ≠ "text") :
   · have : stStep ⟨"", [], ""⟩ ⟨⟨nsStreamErr, e.err⟩, [], e.content⟩ = ⟨e.err, [], ""⟩ := by
       simp [stStep, hs, hc]
     rw [this, htexts]; simp [hs]
+
+/-- **round trip with an application error** (`ApplicationError`): elements outside the
+stream-error namespace are skipped by the decoder (repaired `UnmarshalXML`) and everything else
+comes back -/
+theorem C13_stream_error_roundtrip_payload (e : StErr) (es : List Elem)
+    (hes : ∀ x ∈ es, x.ok) (hns : ∀ x ∈ es, x.name.space ≠ nsStreamErr) (hc : e.err ≠ "text") :
+    decodeStreamErr (streamErrTokens e (es.flatMap Elem.toks)) =
+      some ⟨e.err, e.texts, if e.err = "see-other-host" then e.content else ""⟩ := by
+  obtain ⟨cs, hn, hf⟩ := fold_elems es hes [⟨⟨nsStreamErr, e.err⟩, [], e.content⟩]
+  have hforeign := children_foreign hn nsStreamErr hns
+  have hchildren : childrenOf (streamErrContent e (es.flatMap Elem.toks)) =
+      ⟨⟨nsStreamErr, e.err⟩, [], e.content⟩ :: (cs ++ e.texts.map (textChild nsStreamErr)) := by
+    unfold childrenOf streamErrContent
+    rw [List.foldl_append, List.foldl_append, fold_simple]
+    simp only [List.nil_append]
+    rw [hf, fold_texts]
+    simp
+  have hskip : ∀ (l : List Child), (∀ c ∈ l, c.name.space ≠ nsStreamErr) → ∀ s : StErr, l.foldl stStep s = s := by
+    intro l
+    induction l with
+    | nil => intro _ s; rfl
+    | cons c cs ih =>
+      intro h s
+      have hc' := h c (by simp)
+      have : stStep s c = s := by simp [stStep, hc']
+      simp only [List.foldl_cons, this]
+      exact ih (fun x hx => h x (by simp [hx])) s
+  have htexts : ∀ (l : List (String × String)) (s : StErr),
+      (l.map (textChild nsStreamErr)).foldl stStep s = { s with texts := s.texts ++ l } := by
+    intro l
+    induction l with
+    | nil => intro s; simp
+    | cons p ps ih =>
+      intro s
+      simp only [List.map_cons, List.foldl_cons]
+      have : stStep s (textChild nsStreamErr p) = { s with texts := s.texts ++ [p] } := by
+        have hl := langOf_textChild nsStreamErr p
+        simp [stStep, textChild, nsStreamErr] at hl ⊢
+        simp [hl]
+      rw [this, ih]
+      simp
+  unfold decodeStreamErr streamErrTokens
+  rw [contentOf_wrap]
+  simp only [Option.map_some, hchildren, List.foldl_cons, List.foldl_append]
+  by_cases hs : e.err = "see-other-host"
+  · have : stStep ⟨"", [], ""⟩ ⟨⟨nsStreamErr, e.err⟩, [], e.content⟩ = ⟨e.err, [], e.content⟩ := by
+      simp [stStep, hs]
+    rw [this, hskip cs hforeign, htexts]; simp [hs]
+  · have : stStep ⟨"", [], ""⟩ ⟨⟨nsStreamErr, e.err⟩, [], e.content⟩ = ⟨e.err, [], ""⟩ := by
+      simp [stStep, hs, hc]
+    rw [this, hskip cs hforeign, htexts]; simp [hs]
+
+/-- non-vacuity: a nested application element (with an inner element called `text` in another
+namespace) is a payload the two theorems apply to -/
+example : (⟨⟨"urn:app", "outer"⟩, [], [.start ⟨"urn:app2", "text"⟩ [], .chars "n", .stop ⟨"urn:app2", "text"⟩], ⟨"urn:app", "outer"⟩⟩ : Elem).ok := by
+  simp [Elem.ok]; decide
 
 end XmppModel.Props.C13
